@@ -75,7 +75,7 @@ def _np(sx, x):
     return rnp.array(x, dtype=float)
 
 
-def evaluator(sx, shape, n, csel):
+def evaluator(sx, shape, n, csel, form3=False):
     """the exact evaluation equals the expected discounted return of running the controller from each (node, state) pair,
     where an episode ends on entering an absorbing state"""
     sh = PSH[shape]
@@ -84,6 +84,9 @@ def evaluator(sx, shape, n, csel):
     g = sx.const(sh.gamma)
     rew = {(s, a, ns): sx.real(f"r_{s}_{a}_{ns}", -1, 1) for s in range(sh.S) for a in sh.avail[s] for ns in sh.rows[(s, a)]}
     act, obs = list(controllers(nA, nO, n))[csel]
+    if form3:
+        # the action-independent form p(n' | n, o) of the node strategy (a 3-dimensional tensor): action 0's slice for every action
+        obs = [[obs[k][0] for _ in range(nA)] for k in range(n)]
     iota = simplex(sx, [f"iota{k}" for k in range(n)])
     from msdm.algorithms.fscgradientascent import stochastic_fsc_policy_evaluation_exact
     c = sx.const
@@ -93,6 +96,8 @@ def evaluator(sx, shape, n, csel):
         # strategies laid out in the POMDP's own action / observation order
         act_t = [[c(act[k][AL.index(a_)]) for a_ in al] for k in range(n)]
         obs_t = [[[[c(obs[k][AL.index(a_)][OL.index(o_)][m]) for m in range(n)] for o_ in ol] for a_ in al] for k in range(n)]
+        if form3:
+            obs_t = [[[c(obs[k][0][OL.index(o_)][m]) for m in range(n)] for o_ in ol] for k in range(n)]
         with sx.must_not_raise('evaluate'):
             res = stochastic_fsc_policy_evaluation_exact(pomdp, _tens(sx, act_t), _tens(sx, obs_t), fsc_initial_state=_tens(sx, iota))
         # oracle: Bellman expectation equations of the controller x POMDP cross product, absorbing states worth 0
@@ -282,6 +287,8 @@ def jobs(tier):
         for n in (1, 2):
             for k in range(len(list(controllers(nA, nO, n)))):
                 yield ('evaluator', dict(shape=i, n=n, csel=k), o)
+                if n == 2 and nA >= 2 and nO >= 2:
+                    yield ('evaluator', dict(shape=i, n=n, csel=k, form3=True), o)
         for k in range(4):
             yield ('execution', dict(shape=i, csel=k, length=2 if tier == 'quick' else 3), o)
         for st in sorted(set([0] + list(sh.absorb))):
